@@ -3,7 +3,7 @@
    the extracted datatypes. *)
 From Coq Require Import ZArith List Floats.
 From Coq Require Import ExtrOcamlBasic ExtrOCamlFloats ExtrOCamlInt63.
-From SC Require Import Num Vec3 Kernel FloatIO Grid Integrator CellCycle Mesh Geometry Forces MeshOps Population Vtk Params Params_gen.
+From SC Require Import Num Vec3 Kernel FloatIO Grid Integrator CellCycle Mesh Geometry Forces MeshOps Population Vtk Params Params_gen Output.
 
 Definition kernel_f := kernel NumF.
 
@@ -77,6 +77,10 @@ Definition par_cell_types {T V} stod stoi is_inf lower inf empty ltb0 leb0 ltb :
   @decode_cell_types T V stod stoi is_inf lower inf empty ltb0 leb0 ltb cell_table face_table.
 Definition par_translation_ok := translation_ok.
 
+(* C19: the output events of a run (binary64 time accumulation, exact floor) *)
+Definition out_run_f := @run float NumF f_floorZ Z.
+Definition out_init_f := @init float NumF Z.
+
 Extraction Language OCaml.
 Extraction "model.ml" NumF kernel_f
   grid_dims_f grid_idx3_f grid_in_range_f grid_flat_f grid_empty_f grid_place_f grid_nbh_f grid_content_f grid_content_at_f
@@ -89,4 +93,5 @@ Extraction "model.ml" NumF kernel_f
   ops_replay_f ops_guards_f
   pop_init pop_step pop_inv_b
   vtk_write vtk_read
-  par_numerical par_cell_types par_translation_ok.
+  par_numerical par_cell_types par_translation_ok
+  out_run_f out_init_f.
